@@ -93,6 +93,9 @@ func c05List(tier string) []c05Case {
 	for i := 0; i < nids; i++ {
 		out = append(out, c05Case{Family: "ids", Calls: 1280})
 	}
+	for i := 0; i < tierN(tier, 6, 48); i++ {
+		out = append(out, c05Case{Family: "websocket", Calls: i})
+	}
 	return out
 }
 
@@ -508,6 +511,12 @@ func c05Run(tier string, seed int64, idx int) *core.Result {
 	case "ids":
 		c05IDs(tier, seed, idx, c, res)
 		return res
+	case "websocket":
+		wc := wsGen(c.Calls, true)
+		res.Sample = wc
+		wsWorkload(seed, idx, wc, "isolation", res)
+		res.DistinctNT = 1
+		return res
 	}
 	setGMP([]int{1, 1, 4}[idx%3])
 	h := bed.NewHooks()
@@ -537,13 +546,13 @@ func init() {
 	core.Register(&core.Prop{
 		ID:    "C05",
 		Level: "exploration",
-		Rule:  "(perm) for each configuration of k<=3 (thorough also 4) outstanding calls with per-call scripts of 1 (unary) or 2..6 envelopes, EVERY order-preserving merge (multiset permutation) of the scripts is played on a fresh connection: by a scripted server against a real client (replies, headers, bodies, trailers, distinct statuses per call) and by a scripted client against a real server (requests, opens, bodies, half-closes); each call/handler must observe exactly its own script. (ids) histories of 1280 calls per connection (quick 8, thorough 80 connections), 64 callers released from a barrier per burst, unary and streams mixed: ids on the wire pairwise distinct, one id per call, every call sees only its own echo. distinct_nontrivial = interleavings enumerated (all distinct) + id histories.",
+		Rule:  "(perm) for each configuration of k<=3 (thorough also 4) outstanding calls with per-call scripts of 1 (unary) or 2..6 envelopes, EVERY order-preserving merge (multiset permutation) of the scripts is played on a fresh connection: by a scripted server against a real client (replies, headers, bodies, trailers, distinct statuses per call) and by a scripted client against a real server (requests, opens, bodies, half-closes); each call/handler must observe exactly its own script. (ids) histories of 1280 calls per connection (quick 8, thorough 80 connections), 64 callers released from a barrier per burst, unary and streams mixed: ids on the wire pairwise distinct, one id per call, every call sees only its own echo. (websocket) quick 6 / thorough 48 cases of 2..16 unary calls and 2..8 echo streams at once over the shipped websocket transport on loopback sockets with stalling writes, payloads 0..64 KiB: no call or stream sees foreign content (calls that merely fail are counted, not judged here; 30 s wall bound = inconclusive). distinct_nontrivial = interleavings enumerated (all distinct) + id histories.",
 		Plan:  func(tier string, seed int64) int { return len(c05List(tier)) },
 		Run:   c05Run,
 		Exhaustive: func(string) bool { return true },
 		MaxStats:   []string{"max_ids_on_one_connection"},
 		RequiredStats: func(string) []string {
-			return []string{"interleavings_client-perm", "interleavings_server-perm", "ids_checked"}
+			return []string{"interleavings_client-perm", "interleavings_server-perm", "ids_checked", "ws_streams_checked", "ws_unary_calls_checked"}
 		},
 		Assumptions: []string{"exhaustive = all interleavings of the listed script-length configurations; id histories are sampled schedules"},
 	})
